@@ -348,7 +348,7 @@ func parent(p *core.Prop) int {
 					if merged.ViolBySig[sig] == 0 {
 						keep := filepath.Join(*fVerif, "replays", p.ID)
 						os.MkdirAll(keep, 0755)
-						lp := filepath.Join(keep, fmt.Sprintf("race-%x.txt", sha1.Sum([]byte(key)))[:60])
+						lp := filepath.Join(keep, fmt.Sprintf("race-%x.txt", sha1.Sum([]byte(key))))
 						os.WriteFile(lp, []byte(rp.text), 0644)
 						merged.Violations = append(merged.Violations, core.Violation{Sig: sig, Msg: "data race between two holders of the send-path exclusion", Case: map[string]interface{}{"report": lp}})
 						violPart[sig] = part.Name
@@ -396,7 +396,7 @@ func parent(p *core.Prop) int {
 			rf := replayFile{Property: p.ID, Part: violPart[s], Tier: *fTier, Seed: *fSeed, Sig: s, Msg: v.Msg, Count: merged.ViolBySig[s], Case: cb}
 			dir := filepath.Join(*fVerif, "replays", p.ID)
 			os.MkdirAll(dir, 0755)
-			path := filepath.Join(dir, fmt.Sprintf("%x.json", sha1.Sum([]byte(s)))[:len(dir)+1+16]+".json")
+			path := filepath.Join(dir, fmt.Sprintf("%x", sha1.Sum([]byte(s)))[:16]+".json")
 			b, _ := json.MarshalIndent(rf, "", " ")
 			os.WriteFile(path, b, 0644)
 			fmt.Printf("VIOLATION property=%s replay=%s\n", p.ID, path)
